@@ -1,6 +1,7 @@
 import CqlVerif.Lemmas.Parser
 import CqlVerif.Lemmas.ParserSound
 import CqlVerif.Model.Lexer
+import CqlVerif.Lemmas.Grammar
 /-!
 # C06 — The idempotency classifier is sound, case/whitespace-stable and total
 
@@ -74,6 +75,45 @@ example :
        (tkStringLiteral, []), (tkColon, []), (tkIdentifier, fn), (tkLparen, []), (tkRparen, []), (tkRcurly, []), (tkRparen, [])]
     (classifyS (lexerOfTokens (stmt [78, 111, 87])) 60).2.sawNonIdem = true ∧ (classify (lexerOfTokens (stmt [78, 111, 87])) 60).idem = false ∧
     (classifyS (lexerOfTokens (stmt [102])) 60).2.sawNonIdem = false ∧ (classify (lexerOfTokens (stmt [102])) 60).idem = true := by
+  decide +kernel
+
+/-! ### the grammar side (`Model/CqlAst.lean`): terms as syntax trees -/
+open CqlVerif.Ast in
+/-- **term_grammar_sound** — for every term of the CQL term grammar (literals, bind markers, list / set / map /
+UDT / tuple literals nested to any depth, type casts with parameterised type names, function calls - qualified or
+not - whose arguments are terms or column names), rendered as tokens in *any* context (`rest` is arbitrary, and so
+is everything the lexer yields before position `p`), with any amount of fuel: if `parseTerm`, entered as the code
+enters it (first token consumed), does not answer "not idempotent", then it has read exactly the term's tokens -
+what follows is `rest` - and the term contains **no** call of `now()` / `uuid()` (unqualified or in keyspace
+`system`, in any letter case) at any depth.  Together with `no_verdict_dropped` (which is about what the parser
+*parsed*), this is the statement about what was *written*: the look-ahead / rewind paths (`{ f(…`, `{ ks.f(…`,
+`{ field : …`, `( type ) …` versus `( f(…), …`, `f(col, …)`) cannot make a non-deterministic call disappear. -/
+theorem term_grammar_sound (t : Term) (L : Lexer) (fuel : Nat) (s : LS) (p : Nat) (rest : List Tok)
+    (hA : At L p (t.render rest)) (hF : Fed s p t.head)
+    (hi : (parseTerm L fuel s t.head.kind).1.idem = true) :
+    t.nonIdem = false ∧ At L (parseTerm L fuel s t.head.kind).2.2.p rest :=
+  (term_sound t L fuel s p rest hA hF hi).symm
+
+open CqlVerif.Ast in
+/-- the same for the concrete lexer that yields a given token list: whatever precedes and follows the term -/
+theorem term_grammar_sound_tokens (t : Term) (pre post : List Tok) (fuel : Nat) (s : LS) (hF : Fed s pre.length t.head)
+    (hi : (parseTerm (lexOf (pre ++ t.render post)) fuel s t.head.kind).1.idem = true) : t.nonIdem = false :=
+  (term_sound t _ fuel s pre.length post (At_lexOf pre (t.render post)) hF hi).2
+
+open CqlVerif.Ast in
+/-- non-vacuity: `[1, {f : (frozen<a, b>) ks.g(c, ?)}, {system.NoW(): :x}]` is a term of the grammar whose rendering
+the parser rejects as not idempotent, and with `h()` in place of `system.NoW()` the hypotheses of the theorem are
+met: the verdict is "idempotent" -/
+example :
+    let tm (ks : Option Ident) (fn : List Nat) : Term :=
+      .list (.cons .int (.cons (.udt (.cons { text := [102] } (.cast { text := [102, 114] } [{ text := [97] }, { text := [98] }]
+        (.call (some { text := [107, 115] }) { text := [103] } (.col { text := [99] } (.term .bindQ .nil)))) .nil))
+        (.cons (.map (.cons (.call ks { text := fn } .nil) (.bindNamed { text := [120] }) .nil)) .nil)))
+    let s0 : LS := { p := 1 }
+    (tm (some { text := [115, 121, 115, 116, 101, 109] }) [78, 111, 87]).nonIdem = true ∧
+    (parseTerm (lexOf ((tm (some { text := [115, 121, 115, 116, 101, 109] }) [78, 111, 87]).render [])) 40 s0 tkLsquare).1.idem = false ∧
+    (tm none [104]).nonIdem = false ∧
+    (parseTerm (lexOf ((tm none [104]).render [])) 40 s0 tkLsquare).1.idem = true := by
   decide +kernel
 
 end CqlVerif.C06
